@@ -11,10 +11,11 @@ from .c11 import indep_decode
 import impl
 
 PID = "C06"
-LEAN_MODULES = ["BtcHd.Props.C06"]
+LEAN_MODULES = ["BtcHd.Props.C06", "BtcHd.Props.C06Json"]
 TRUSTED_BASE = common.CORE_TRUSTED + [
-    "the JSON text layer (CPython json.dumps/loads on dict/list/str/None) is trusted; it is checked on the "
-    "implementation (json.loads(w.json()) == w.generate()) but not modelled"]
+    "the JSON text layer is modelled (Model/JsonText.lean: dumps with CPython's ensure_ascii escaping and indent "
+    "layout, loads for the emitted subset), proved to round-trip for every value, and compared with CPython's "
+    "json.dumps / json.loads text-for-text on generated reports with Unicode passphrases"]
 ASSUMPTIONS = ["CPython json round-trips str/list/dict/None values"]
 RULE = ("wallets from mnemonic/entropy/seed on both networks; accounts {0,1,2^31-2,2^31-1,random}; intervals empty, "
         "single, (0,k), large offsets, ending at 2^31; non-trivial = distinct report with at least one row")
@@ -72,6 +73,21 @@ def cases(rng, tier):
     for ln in range(0, 9):
         w = wspecs(rng, 1)[0]
         yield "generate %s %d %d %d" % (w, rng.choice([0, 1]), 3, 3 + ln), "generate-rows-%d" % ln
+    for _ in range(2 if tier == "quick" else 40):
+        w = wspecs(rng, 1)[0]
+        ops = []
+        for _ in range(rng.randint(3, 5)):
+            a = rng.choice([0, 1, 2, 5])
+            ops.append("rep:%d:%d:%d" % (rng.choice([0, 0, 1]), a, a + rng.choice([0, 1, 2, 4])))
+            if rng.random() < 0.5:
+                ops.append("bp:" + sx("m/%d'/%d'/0'/0/%d" % (rng.choice([44, 49, 84]), 1 if w.endswith(":1") else 0,
+                                                             rng.choice([0, 3, 9]))))
+        yield "hist %s %s" % (w, ";".join(ops)), "one-wallet-object-many-reports"
+    # JSON text layer: the rendered text must equal the model's dumps and parse back (both directions)
+    for p in ["", "TREZOR", "é \" \\ \n \t \x7f \u2028 日本 🔑", "\x01\x1f/"]:
+        w = "mn:%s:%s:%s:%s:%s" % (sx(MN), sx(MN), sx(p), sx(nf(p)), rng.choice("01"))
+        for ind in ("-", "4", "0"):
+            yield "json_text %s 0 0 %d %s" % (w, rng.choice([0, 1, 2]), ind), "json-text"
     for w in wspecs(rng, n):
         acct = rng.choice([0, 0, 1, H - 2, H - 1, rng.randrange(H)])
         a, b = intervals(rng)
@@ -208,6 +224,33 @@ def from_canon(s):
 def oracle(line, out):
     tok = line.split(" ")
     v = ok_val(out)
+    if tok[0] == "hist":
+        if v is None:
+            return "history failed"
+        seed, testnet, mn, pw = master_of(tok[1])
+        if indep_master(seed) is None:
+            return None
+        for o, res in zip(tok[2].split(";"), v.split(" ; ")):
+            if o.startswith("rep:"):
+                _, acct, a, b = o.split(":")
+                if res == "err":
+                    return "report request %s on a reused wallet object failed" % o
+                msg = check_report(from_canon(res), seed, testnet, mn, pw, int(acct), int(a), int(b))
+                if msg:
+                    return "on a wallet object used before (%s): %s" % (tok[2], msg)
+        return None
+    if tok[0] == "json_text":
+        if v is None:
+            return "JSON rendering failed"
+        text = unstr(v)
+        wal = impl.make_wallet(tok[1])
+        data = wal.generate(account=int(tok[2]), interval=(int(tok[3]), int(tok[4])))
+        if json.loads(text) != json.loads(json.dumps(data)):
+            return "the JSON rendering does not parse back to the generated data"
+        back = impl.run("json_loads " + sx(text))
+        if back != "ok " + impl.jsonS(data):
+            return "json.loads of the rendering differs from the data"
+        return None
     if tok[0] == "generate":
         w, acct, a, b = tok[1], int(tok[2]), int(tok[3]), int(tok[4])
         seed, testnet, mn, pw = master_of(w)
